@@ -52,6 +52,10 @@ def valid_spec(draw, sm, want_mc=None, want_mixed=None, explicit=False):
     use_mc = bool(cands) and (want_mc if want_mc is not None else draw(st.integers(0, 2)) == 0)
     mc = None
     if use_mc:
+        if 'prefix_ports' in sm.get('features', []) and draw(st.booleans()):
+            # port names that contain one another: make the multi-client port the longest one
+            longest = max(len(c[0]) for c in cands)
+            cands = [c for c in cands if len(c[0]) == longest]
         port, claim, enum, release = draw(st.sampled_from(cands))
         grant = draw(st.sampled_from(enum['elem']['fields']))
         mc = {'port': port, 'claim': claim['name'], 'grant': [grant], 'release': release['name']}
@@ -67,16 +71,41 @@ def valid_spec(draw, sm, want_mc=None, want_mixed=None, explicit=False):
     suffix = draw(st.sampled_from(SUFFIX_POOL))
     while base + suffix in decl_names:
         suffix += '_'
+    prefix = draw(st.sampled_from(PREFIX_POOL))
+    shadows = shadow_names(sm)
+    if shadows and draw(st.integers(0, 2)) == 0:
+        # a support-files prefix that reuses the name of a nested namespace of the model
+        n = draw(st.sampled_from(shadows))
+        prefix = [n] if draw(st.booleans()) else [n, 'Util']
     spec = {'filename': draw(st.sampled_from(['/x/y/', '', '../rel/dir.d/', './'])) + base + '.dzn',
             'suffix': suffix, 'enc': list(sm['enc']),
             'prov': {'sts': psts, 'mts': pmts}, 'req': {'sts': rsts, 'mts': rmts}, 'mc': mc,
             'origin': draw(st.sampled_from(['CREATE', 'IMPORT'])),
             'copyright': draw(st.sampled_from(COPYRIGHTS)),
             'creator': draw(st.sampled_from([None, 'made by me', 'line1\nline2'])),
-            'prefix': draw(st.sampled_from(PREFIX_POOL))}
+            'prefix': prefix}
     sem = {p: psem for p in prov}
     sem.update(assign)
     return {'spec': spec, 'semantics': sem}
+
+
+def shadow_names(sm):
+    """Namespace identifiers that occur below the root but not as a root-level name."""
+    nested, root = [], set()
+
+    def rec(elems, depth):
+        for e in elems:
+            if e['k'] == 'ns':
+                for i, ident in enumerate(e['ids']):
+                    if depth + i == 0:
+                        root.add(ident)
+                    elif ident not in nested:
+                        nested.append(ident)
+                rec(e['elems'], depth + len(e['ids']))
+            elif depth == 0 and isinstance(e.get('name'), list):
+                root.add(e['name'][-1])
+    rec(sm['model']['root'], 0)
+    return [n for n in nested if n not in root and n != 'Dzn']
 
 
 def _scope_elems(sm):
